@@ -95,6 +95,9 @@ func runC01(c *vkit.Ctx, i int, h *History) {
 		s.RunProcess(r, h, mode, noColor, nil, func(o Op, res StepResult) bool {
 			c.Count("replay_calls", 1)
 			c.Count("replay_outcome_"+res.Got, 1)
+			if o.Empty && res.Got == "noop" && len(res.Problems) == 0 {
+				return true // MatchSnapshot without values: a warning is logged, nothing else happens
+			}
 			if res.Got != vkit.Passed || len(res.Signals.Errors)+len(res.Signals.Logs) > 0 {
 				class := ""
 				for _, p := range res.Problems {
